@@ -1,5 +1,6 @@
 import Apko.Model.Resolver
 import Apko.Model.Glue
+import Apko.Model.Alias
 /-! line-protocol handlers for corr:resolver / multiarch (C02, C14, C08) -/
 namespace Apko.Driver.Resolver
 open Apko Apko.Resolver
@@ -80,8 +81,45 @@ def firstUnavailable (archs : List (Text × Universe)) (self : Text) (s : List P
     (archs.find? fun (a, other) =>
       a != self && !(other.all.any fun q => q.name = p.name && q.version = p.version)).map fun (a, _) => (p, a)
 
+/-- C08 aliasing: what a clone shares with the cached prototype, field by field, derived from the
+REGENERATED statement list of `PkgResolver.Clone` (`Generated.aliasCloneStmts`): plain assignment =
+the same container; maps.Clone / slices.Clone = another container with the same entries; a new literal
+(or a field Clone() does not mention) = another, empty container. `req` = `field:len` of the prototype. -/
+def cloneShape (req : String) : String :=
+  let tbl := Alias.cloneTable Generated.aliasCloneStmts
+  let one (fl : String) : String :=
+    let parts := fl.splitOn ":"
+    let f := parts.headD ""
+    let n := (parts.getD 1 "0").toNat!
+    let ents := if n = 0 then "none" else "shared"
+    let shape := match tbl.find? (·.1 = f) with
+      | some (_, .share) => "same/" ++ ents
+      | some (_, .shallow) => "distinct/" ++ ents
+      | some (_, .fresh) => "distinct/none"
+      | some (_, .other) => "unknown"
+      | none => "distinct/none"
+    fl ++ ":" ++ shape
+  ",".intercalate ((req.splitOn ",").map one)
+
+/-- the property's demand on that shape: every container the resolution path writes into
+(`cloneFieldsWritten` over the regenerated write sites) is the clone's own -/
+def cloneShapeOk (go : String) : Bool :=
+  let e := Alias.env Generated.aliasCloneStmts Generated.aliasReturns
+  (Alias.cloneFieldsWritten e Generated.aliasWrites).all fun f =>
+    (go.splitOn ",").any fun s => match s.splitOn ":" with
+      | [g, _, sh] => g = f && sh.startsWith "distinct/"
+      | _ => false
+
 def handleCore (args : List String) : Option String :=
   match args with
+  | ["p.alias.shape", req] =>
+    let impl := cloneShape req
+    if cloneShapeOk impl then some (impl ++ "\t" ++ impl ++ "\t-")
+    else some (impl ++ "\twritten-container-not-owned:" ++ impl ++ "\tunlisted")
+  | ["p.alias.frame"] =>
+    -- `AliasTable.published_immutable_generated` / `clone_view_generated`: the published value never
+    -- changes and a clone sees its own stores only — the only admissible answer
+    some "consistent\tconsistent\t-"
   | ["p.pure"] =>
     -- C08: the model is a pure function of (universe, world); `C08.schedule_independent` and
     -- `history_independent` say the caches cannot change that — the only admissible answer
